@@ -21,7 +21,11 @@ judged by
   (ii) the predictor-independent monitor `stepCheckAny` (driver op `LANY`, Props/C11Any
        acceptedAny_valid / acceptedAny_unique / labelAny_never_restarts) with `pred` instantiated
        by the recorded predictions - exactly: every float is sent as `Fraction(float)`, the whole
-       movie scaled by the common denominator.
+       movie scaled by the common denominator; the driver also reports whether the points the
+       predictor was asked about are exactly the monitor's candidate sources (`srcmatch`);
+  (iii) DriftPredict only: every recorded prediction is `pos + vel*(t - t_obs)` with the velocity in
+       force at that call, i.e. the monitor's `view` (each source over its own elapsed time).
+A failure of (i) is a property-violation; (ii)/(iii) failing while (i) holds is a correspondence-break.
 """
 import numpy as np  # noqa
 
@@ -272,9 +276,11 @@ def recording(cls):
 
         def predict(self, t1, particles):
             particles = list(particles)
+            asked = [(int(p.track.id), p.t, [float(c) for c in p.pos]) for p in particles]
+            vel = getattr(self, "vel", None)          # DriftPredict: the velocity in force
+            vel = None if vel is None else [float(x) for x in np.atleast_1d(vel)]
             out = np.array(list(super().predict(t1, particles)), dtype=float)
-            self.calls.append((t1, [(int(p.track.id), p.t, [float(c) for c in p.pos])
-                                    for p in particles], out.copy()))
+            self.calls.append((t1, asked, out.copy(), vel))
             return out
     Recording.__name__ = "Recording" + cls.__name__
     return Recording
@@ -451,6 +457,25 @@ def run_stateful_case(ctx, inp):
     if any(not np.all(np.isfinite(c[2])) for t1, c in calls_by_t.items() if t1 in used_t):
         res.stat("stateful_nonfinite_prediction")
         return res
+    # DriftPredict is the monitor's `view` with the velocity in force at that call: every source
+    # (remembered ones included) is extrapolated over ITS OWN elapsed time
+    if inp["kind"] == "drift":
+        for t1 in sorted(used_t & set(calls_by_t)):
+            _, asked, out, vel = calls_by_t[t1]
+            if vel is None:
+                continue
+            res.stat("stateful_drift_law_calls")
+            for (track, tobs, pos), pr in zip(asked, out):
+                exp = [p + v * (t1 - tobs) for p, v in zip(pos, vel)]
+                if any(abs(a - b) > 1e-6 * (1.0 + abs(a)) for a, b in zip(exp, pr)):
+                    res.violation("correspondence-break",
+                                  "DriftPredict: prediction for track %d (observed at t=%s at %s) asked for "
+                                  "t=%s is %s, not pos + vel*(t - t_obs) = %s (vel %s)" % (
+                                      track, tobs, pos, t1, [float(x) for x in pr], exp, vel),
+                                  impl=dict(levels=levels), model=dict(expected=exp),
+                                  broken="Linker.view (pos + vel*(t - t_obs)) as the model of DriftPredict.predict",
+                                  signature=dict(sig, what="drift-law"))
+                    return res
     line, D, fr = lany_line(inp, levels, calls_by_t)
     links, rescued, worst = link_margins(inp, levels, fr)
     moved = sum(1 for rows in fr.values() for _, _, fp, fq in rows if fp != fq)
